@@ -390,8 +390,8 @@ Proof. unfold world_apply. intros ->. reflexivity. Qed.
 
 Lemma run_steps_err_keeps vr accts s b st rest i :
   world_step vr s b st = Err ->
-  run_steps vr accts s b (st :: rest) i = (s, b, Some i) \/
-  run_steps vr accts s b (st :: rest) i = run_steps vr accts s b rest (i + 1).
+  run_steps vr accts s b (IStep st :: rest) i = (s, b, Some i) \/
+  run_steps vr accts s b (IStep st :: rest) i = run_steps vr accts s b rest (i + 1).
 Proof.
   intros H. cbn [run_steps]. rewrite H. destruct (st_ok st); [ left; reflexivity | ].
   match goal with |- context [if ?c then _ else _] => destruct c end; [ right | left ]; reflexivity.
